@@ -565,6 +565,8 @@ def witness(ctx):
                 if not low and (i + seed) % 6 != D:
                     continue
                 todo = (rot(D),)
+                if todo == (0,) and low:          # order 0 never calls the nonlinear term: always add an order >= 1
+                    todo = (0, ords[1 + (i + seed) % 4])
             special = {rot(D), rot(D + 2)} if deep else set(todo)
             for o in todo:
                 check("state", dict(cls=name, D=D, N=N, order=o, state="generic", wrap="step", seed=seed))
